@@ -474,6 +474,9 @@ def py_type(I, ctx, v):
         return v.cls_override or I.ndarray_class
     if isinstance(v, TupleVal):
         return v.cls or b["tuple"]
+    from .values import NpScalar
+    if isinstance(v, NpScalar):
+        return v.cls
     if isinstance(v, bool) or (isinstance(v, Sym) and v.kind == "bool"):
         return b["bool"]
     if isinstance(v, int) or (isinstance(v, Sym) and v.kind == "int"):
